@@ -149,7 +149,8 @@ def check_case(case):
     form, kind, sub = case["form"], case["kind"], case["finished"]
     shape = factorise(N)[:2] if len(factorise(N)) <= 2 else (N,)
     if len(shape) == 2:
-        combos = {"a": vals(shape[0]), "b": vals(shape[1], 10)}
+        # (given in an order that is not the alphabetical one)
+        combos = {"b": vals(shape[1], 10), "a": vals(shape[0])}
     else:
         combos = {"a": vals(N)}
     args = sorted(combos)
@@ -167,6 +168,11 @@ def check_case(case):
     def key(sym):
         return "C09|%s|%s|%s|%s" % (form, kind, mode, sym)
 
+    # (a handle made before anything was sown - by name only - is used for
+    # the partial reap later on)
+    early = xyz.Crop(name="k", parent_dir=d) if core.pick(
+        [N, mode, req, sub, form, "early"], 4) == 0 and not case.get("live") \
+        else None
     if case["shuffle"] and core.pick([N, mode, req, sub, "ctor"], 3) == 0:
         # (a shuffle given to the constructor only; the sow call leaves its
         # own option at the default)
@@ -208,6 +214,8 @@ def check_case(case):
 
     def reap(**kw):
         c = crop if case.get("live") else xyz.Crop(name="k", parent_dir=d)
+        if early is not None and kw.get("allow_incomplete"):
+            c = early
         if form == "raw":
             return c.reap(**kw)
         if form == "ds":
